@@ -20,6 +20,12 @@ PROPS = {
         assumptions=["quarter-chord aerodynamic centre (w1 = 0.25) and the 0.375/0.125 node weights are constants of the code, "
                      "compared through the correspondence check"],
     ),
+    "C16": dict(
+        components=["Weight", "StructuralCG", "StructWeightLoads", "FuelLoads", "FuelVolDelta", "PointMassLoads",
+                    "ThrustLoads", "TotalLoads"],
+        value_only=["FuelVolDelta"],   # its Jacobian belongs to C01 (known finding F10)
+        assumptions=["element lengths are positive (non-degenerate beam mesh) and the fuel volumes do not sum to zero"],
+    ),
 }
 for k, v in PROPS.items():
     v["theorems"] = THEOREMS.get(k, {}).get("theorems", [])
@@ -31,7 +37,7 @@ def regenerate(prop):
 
 def run_suites(prop, st, tier):
     R = PROPS[prop]
-    suites.component_suite(R.get("components", []), st, tier=tier)
+    suites.component_suite(R.get("components", []), st, tier=tier, value_only=R.get("value_only", ()))
     for f in R.get("extra_suites", []):
         f(st, tier)
 
